@@ -1,6 +1,7 @@
 package main
 
 import (
+	"bytes"
 	"encoding/hex"
 	"fmt"
 	"reflect"
@@ -14,6 +15,7 @@ import (
 //   i<dec> int   e<dec> Enumerated   b<bitlen>:<hex> BitString   o<hex> OctetString   s<hex> string
 //   t / f bool   d<hex> ObjectIdentifier   n nil pointer   p <v> non-nil pointer
 //   ( v … ) struct   [ v … ] slice           "-" stands for the empty hex string
+//   on input a hex string may be written <hex>*<n>: the octets repeated n times (long strings in corpus files)
 var ngapTypes map[string]reflect.Type
 
 func hexOrDash(b []byte) string {
@@ -99,6 +101,13 @@ func unhex(s string) []byte {
 	if s == "-" {
 		return []byte{}
 	}
+	if i := strings.IndexByte(s, '*'); i >= 0 {
+		n, err := strconv.Atoi(s[i+1:])
+		if err != nil || n < 0 || n > 1<<20 {
+			panic(badArg{})
+		}
+		return bytes.Repeat(unhex(s[:i]), n)
+	}
 	b, err := hex.DecodeString(s)
 	if err != nil {
 		panic(badArg{})
@@ -124,9 +133,9 @@ func parseVal(v reflect.Value, s *tokStream) {
 			panic(badArg{})
 		}
 		raw := unhex(parts[1])
-		bytes := make([]byte, len(raw)) // cap == len so that out-of-range reslices trap as in the model
-		copy(bytes, raw)
-		v.Set(reflect.ValueOf(aper.BitString{Bytes: bytes, BitLength: n}))
+		octets := make([]byte, len(raw)) // cap == len so that out-of-range reslices trap as in the model
+		copy(octets, raw)
+		v.Set(reflect.ValueOf(aper.BitString{Bytes: octets, BitLength: n}))
 		return
 	case aper.OctetStringType:
 		tok := s.next()
